@@ -517,6 +517,10 @@ def gen_chain_case(rng, tbl):
 
     def add(e):
         e['name'] = f'n{len(pool)}' if rng.random() < 0.93 else f'n{rng.randrange(max(1, len(pool)))}'
+        if rng.random() < 0.06:
+            # names are compared as they are: 'n1 ' (or ' n1', 'N1') is not 'n1'
+            k = rng.randrange(max(1, len(pool)))
+            e['name'] = rng.choice([f'n{k} ', f' n{k}', f'N{k}', f'n{k}\t'])
         pool.append(e)
         return len(pool) - 1
 
@@ -571,6 +575,10 @@ def gen_chain_case(rng, tbl):
         # re-route: an earlier element now drives a new flywheel, cutting the tail off the chain
         i = add({'type': 'fly'})
         src = rng.randrange(1, len(pool) - 1)
+        flagged = [d[1] for d in decls if d[0] == 'worm' and pool[d[1]]['type'] == 'wormgear' and d[3] >= 0.25]
+        if flagged and rng.random() < 0.6:
+            # the worm of a mating flagged self-locking is coupled to a flywheel instead: it stays in the chain with its flag
+            src = rng.choice(flagged)
         decls.append(['joint', src, i])
         if rng.random() < 0.6:
             # ... and back: the relation that was cut off is declared again, word for word (the element drives its
